@@ -24,6 +24,18 @@ suite)
   git -C $wt checkout -q -- go.mod go.sum 2>/dev/null
   echo "suite $id: failing packages/tests:"; grep -E "^(FAIL|--- FAIL|panic:)" $out/verify_suite.log | sort | uniq -c | head -20
   ;;
+check)
+  # seed.sh check <ID> <PROP> [tier] [patchfile]: fresh worktree of /repo HEAD + patch, run the check against it, remove the worktree
+  prop=$3; tier=${4:-quick}; pf=${5:-$out/patch.diff}
+  chk=/tmp/wt/chk-$id-$$
+  git -C /repo worktree add -q --detach $chk HEAD || exit 2
+  if git -C $chk apply $pf; then
+    (cd /verif && VERIF_REPO=$chk ./check $prop --tier $tier 2>&1 | grep -v "^KNOWN-FINDING" | tail -6 | cut -c1-500)
+  else
+    echo "PATCH DOES NOT APPLY to current HEAD"
+  fi
+  git -C /repo worktree remove --force $chk; git -C /repo worktree prune
+  ;;
 keep)
   name=$3; d=/verif/seeded/$name; mkdir -p $d
   cp $out/patch.diff $d/; cp $out/DEMO.md $d/ 2>/dev/null
